@@ -64,11 +64,11 @@ func runC19(r *Run) {
 		{F: "wallet.(*key).derive", C: "lt(a0,2147483648)", Why: "hardened derivation only: an index below 2^31 is refused"},
 		{F: "wallet.DeriveForPath", C: "F(wallet.isValidPath(a0))", Why: "path syntax validated"},
 		{F: "wallet.isValidPath", C: "F(wallet.pathRegex.MatchString(a0))", Why: "path syntax"},
-		{F: "wallet.isValidPath", C: "ne(nil,strconv.ParseUint(strings.TrimRight(strings.Split(a0,\"/\")[1:][(iter+1)],\"'\"),10,32)#1)", Why: "each segment fits 32 bits"},
+		{F: "wallet.isValidPath", C: "ne(nil,strconv.ParseUint(strings.TrimRight(strings.Split(a0,\"/\")[1:][iter],\"'\"),10,32)#1)", Why: "each segment fits 32 bits"},
 		{F: "wallet.keyStoreFromEntropy", C: "ne(bip39.NewMnemonic(a0)#1,nil)", Why: "invalid entropy refused"},
 		{F: "wallet.keyStoreFromEntropy", C: "ne(new(wallet.KeyStore).DeriveForIndexPath(0)#2,nil)", Why: "derivation failure refused"},
 	})
-	r.HasPrefix("wallet.DeriveForPath", "iter(wallet.newMasterKey(a1)#0).derive((conv:uint32(strconv.ParseUint(strings.TrimRight(strings.Split(a0,\"/\")[1:][(iter+1)],\"'\"),10,32)#0)+2147483648))", "every path segment is derived hardened (offset 2^31 added)")
+	r.HasPrefix("wallet.DeriveForPath", "iter(wallet.newMasterKey(a1)#0).derive((conv:uint32(strconv.ParseUint(strings.TrimRight(strings.Split(a0,\"/\")[1:][iter],\"'\"),10,32)#0)+2147483648))", "every path segment is derived hardened (offset 2^31 added)")
 	ks := "wallet.keyStoreFromEntropy"
 	r.Has(ks, "store new(wallet.KeyStore).Entropy = a0", "entropy kept as given")
 	r.Has(ks, "store new(wallet.KeyStore).Mnemonic = bip39.NewMnemonic(a0)#0", "mnemonic is a function of the entropy")
